@@ -56,11 +56,19 @@ func NewSlice3(base unsafe.Pointer, eltSize, cap, i, j, k int) (s Slice) {
 // SliceAppend append elem data and returns a slice.
 func SliceAppend(src Slice, data unsafe.Pointer, num, etSize int) Slice {
 	if etSize == 0 {
+		// Zero-size elements occupy no storage, but append still has to
+		// account for them in the length (and capacity) of the result.
+		src.len += num
+		if src.len > src.cap {
+			src.cap = src.len
+		}
 		return src
 	}
 	oldLen := src.len
 	src = GrowSlice(src, num, etSize)
-	c.Memcpy(c.Advance(src.data, oldLen*etSize), data, uintptr(num*etSize))
+	// The appended elements may alias the destination (append(s[:i], s[j:]...)),
+	// so the copy must tolerate overlap.
+	c.Memmove(c.Advance(src.data, oldLen*etSize), data, uintptr(num*etSize))
 	return src
 }
 
